@@ -92,6 +92,8 @@ func (f *fprinter) attr(a Attr, level int) {
 		f.indent(level, "style={ env.T", num(a.E), "() }")
 	case "classkv":
 		f.indent(level, "class={ env.K(1), templ.KV(env.K(2), env.C(", num(a.C), ")) }")
+	case "cssclassx":
+		f.indent(level, "class={ tinted(\"green\") }")
 	case "cssclass":
 		f.indent(level, "class={ boxed() }")
 	case "scriptcall":
